@@ -31,7 +31,14 @@ def _deepcopy_methods(ctx, R):
             for m in st.body:
                 if isinstance(m, ast.FunctionDef) and m.name == "__deepcopy__" and len(m.args.args) >= 2:
                     ctx.functions_analysed.add("%s:%s.__deepcopy__" % (AST, st.name))
-                    out.append((st.name, m, m.args.args[0].arg, m.args.args[1].arg))
+                    # explanatory temporaries of the hook (`parent = self.parent`, `key = id(parent)`) are read through
+                    from ..pyutil import inline_simple_locals, merge_nested_ifs_inplace
+                    m2 = inline_simple_locals(m)
+                    merge_nested_ifs_inplace(m2)
+                    for par in ast.walk(m2):
+                        for ch in ast.iter_child_nodes(par):
+                            ch._parent = par
+                    out.append((st.name, m2, m.args.args[0].arg, m.args.args[1].arg))
     if len(out) < 2:
         raise MechanismMissing(R, "expected >=2 __deepcopy__ hooks in ast.py, found %d" % len(out))
     return out
